@@ -11,7 +11,7 @@ from harness import codec, tlc
 from harness.checks_codec import run_mc
 from harness.framework import MachineryError
 
-FILLERS = [" ", "\t", "\n", "\r\n", "/* c */", "/* a\n b */", "// c\n", "  \n  ", "/**/"]
+FILLERS = [" ", "\t", "\n", "\r\n", "/* c */", "/* a\n b */", "// c\n", "  \n  ", "/**/", "// c\r\n", "/* a\r\n b */"]
 
 
 # ------------------------------------------------------------------------------------------ canonical abstract types
@@ -46,7 +46,7 @@ def canon(t, anon=False, top=True):
         return {"k": "arr", "elem": canon(t["elem"], top=False), "len": l2}
     if k in ("struct", "union"):
         return {"k": k, "name": "" if anon else t["name"],
-                "fields": [{"name": "" if f.get("anon") else f["name"], "type": canon(f["type"], anon=bool(f.get("anon")), top=False),
+                "fields": [{"name": "" if f.get("anon") else f["name"], "type": canon(f["type"], anon=bool(f.get("anon") or f.get("inline")), top=False),
                             "bits": f["bits"], "anon": bool(f.get("anon"))} for f in t["fields"]]}
     raise ValueError(k)
 
